@@ -11,6 +11,7 @@ def families : List (List String × (List String → String → Verdict)) := [
   (["tag", "sub"], Tags.handle),
   (["proto"], Proto.handle),
   (["frame", "resp"], Frame.handle),
+  (["cmd"], Cmd.handle),
 ]
 
 def dispatch (line : String) : String :=
